@@ -72,6 +72,9 @@ var cloneScripts = []cloneScript{
 	// after a run the input variable holds a literal of the script, i.e. a constant object shared by all clones; the
 	// next Set must replace the variable's value, not write into that object
 	{name: "input-reassigned-to-literal", src: `b := a; a = 3; out := b * 100 + a`, inputs: map[string]interface{}{"a": 0}, sets: []int{1, 2, 4}, rounds: 2},
+	// an EMPTY global array that has spare capacity (as splice / slicing leave it): clones must not share it
+	{name: "empty-input-array-with-capacity", src: `q = append(q, a); out := q`,
+		inputs: map[string]interface{}{"a": 0, "q": &tengo.Array{Value: make([]tengo.Object, 0, 8)}}, sets: []int{1, 2, 3}},
 	{name: "runtime-error-in-module", src: `m := import("mod")
 out := m.f(a)`, mods: map[string]string{"mod": `export {f: func(x) {
 	if x > 1 {
